@@ -61,7 +61,7 @@ func dirEntries(dir string) []string {
 func runC19Case(t *testing.T, c c19Case) CaseOut {
 	var out CaseOut
 	out.Nontrivial = len(c.Secret)+len(c.Plain) > 0
-	synctest.Test(t, func(t *testing.T) {
+	bubble(t, func(t *testing.T) {
 		e := newCtlEnv("n1", []workTypeSpec{{"plain", "hold", false}})
 		defer e.close()
 		e.n.SetClientTLSConfig("tlsc", &tls.Config{MinVersion: tls.VersionTLS12}, nil)
